@@ -195,65 +195,52 @@ def _init_worker(hbar, initfn):
         initfn()
 
 
-_WARM = set()
+_POOLS = {}
 
 
 def warm(fock=True):
-    """Import strawberryfields in the parent and trigger the numba compilation of the Fock gate kernels once, so that
-    forked workers inherit the compiled code (about 13 s per process otherwise)."""
-    if ("fock" if fock else "base") in _WARM:
-        return
-    import warnings
-    warnings.filterwarnings("ignore")
-    import strawberryfields as sf
-    from strawberryfields import ops
-    _WARM.add("base")
-    if not fock:
-        return
-    for pure in (True, False):
-        p = sf.Program(2)
-        with p.context as q:
-            ops.Sgate(0.1, 0.2) | q[0]
-            ops.Dgate(0.1, 0.3) | q[1]
-            ops.BSgate(0.3, 0.2) | (q[0], q[1])
-            ops.S2gate(0.1, 0.2) | (q[1], q[0])
-            ops.MZgate(0.3, 0.2) | (q[0], q[1])
-            ops.Rgate(0.3) | q[0]
-            ops.Kgate(0.1) | q[0]
-            ops.LossChannel(0.9) | q[1]
-            ops.Xgate(0.1) | q[0]
-            ops.Zgate(0.1) | q[0]
-            ops.Pgate(0.1) | q[0]
-            ops.CXgate(0.1) | (q[0], q[1])
-            ops.CZgate(0.1) | (q[0], q[1])
-            ops.Vgate(0.1) | q[0]
-            ops.Fouriergate() | q[1]
-            ops.Coherent(0.1, 0.2) | q[1]
-            ops.Squeezed(0.1, 0.2) | q[1]
-            ops.DisplacedSqueezed(0.1, 0.2, 0.1, 0.3) | q[1]
-            ops.Thermal(0.1) | q[1]
-            ops.Vacuum() | q[1]
-            (r,) = ops.New(1)
-            ops.Dgate(0.1, 0.1) | r
-            ops.MeasureHomodyne(0.2, select=0.1) | q[0]
-            ops.MeasureHomodyne(0.1) | q[1]
-            ops.Del | r
-        st = sf.Engine("fock", backend_options={"cutoff_dim": 4, "pure": pure}).run(p).state
-        st.reduced_dm(0), st.fock_prob([0, 0]), st.mean_photon(0), st.quad_expectation(0), st.all_fock_probs()
-    _WARM.add("fock")
+    """kept for callers; workers compile what they need on first use (the parent never imports strawberryfields:
+    numba's thread pool does not survive fork())."""
+    return
+
+
+def _task(args):
+    fn, cfg, item = args
+    mod = sys.modules.get(fn.__module__)
+    if cfg is not None and mod is not None and hasattr(mod, "_CFG"):
+        mod._CFG.clear()
+        mod._CFG.update(cfg)
+    return fn(item)
+
+
+def get_pool(hbar=None):
+    key = hbar
+    if key not in _POOLS:
+        os.environ.setdefault("OMP_NUM_THREADS", "1")
+        os.environ.setdefault("OPENBLAS_NUM_THREADS", "1")
+        os.environ.setdefault("NUMBA_NUM_THREADS", "1")
+        ctx = mp.get_context("fork")
+        _POOLS[key] = ctx.Pool(NPROC, initializer=_init_worker, initargs=(hbar, None))
+    return _POOLS[key]
+
+
+def close_pools():
+    for p in _POOLS.values():
+        p.terminate()
+    _POOLS.clear()
 
 
 def pmap(fn, items, nproc=None, hbar=None, initfn=None, chunksize=None):
+    """Map fn over items on a persistent worker pool (one pool per hbar value: sf.hbar is process-global).  The calling
+    module's _CFG dict (if any) is shipped with every task."""
     items = list(items)
     if not items:
         return []
-    nproc = min(nproc or NPROC, len(items))
-    os.environ.setdefault("OMP_NUM_THREADS", "1")
-    os.environ.setdefault("OPENBLAS_NUM_THREADS", "1")
-    ctx = mp.get_context("fork")
-    with ctx.Pool(nproc, initializer=_init_worker, initargs=(hbar, initfn), maxtasksperchild=None) as pool:
-        cs = chunksize or max(1, min(32, len(items) // (nproc * 8) or 1))
-        return pool.map(fn, items, chunksize=cs)
+    mod = sys.modules.get(fn.__module__)
+    cfg = dict(getattr(mod, "_CFG", {})) if mod is not None and hasattr(mod, "_CFG") else None
+    pool = get_pool(hbar)
+    cs = chunksize or max(1, min(32, len(items) // (NPROC * 8) or 1))
+    return pool.map(_task, [(fn, cfg, it) for it in items], chunksize=cs)
 
 
 # ---------------------------------------------------------------------------------------------
@@ -384,6 +371,7 @@ class Check:
         with open(os.path.join(ROOT, "evidence", self.pid + ".json"), "w") as f:
             json.dump(ev, f, indent=1, default=str)
         shutil.rmtree(self.tmp, ignore_errors=True)
+        close_pools()
         print("%s %s: states=%d transitions=%d traces=%d evaluations=%d nontrivial=%d inconclusive=%d "
               "violations=%d known=%d wall=%.1fs" % (self.pid, self.tier, self.states, self.transitions, self.traces,
                                                     self.evaluations, len(self.nontrivial), self.inconclusive,
